@@ -13,7 +13,7 @@ ID = "C06"
 LEVEL = "exploration"
 TECHNIQUE = "runtime monitor: differential comparison (re-initialised simulator vs brand-new simulator) of trace, notification stream and all statistics getters after generated prior histories"
 RULE = ("seeded model programs with seeded streams (re-created in construct_model), stochastic delays and "
-        "SimCounter/SimTally/SimWeightedTally/SimPersistent created in construct_model, x prior history in {fresh, "
+        "SimCounter/SimTally/SimWeightedTally/SimPersistent created in construct_model (30% register part of their first events once with add_initial_method), x prior history in {fresh, "
         "stepped k, paused at event k, bounded run, ended, paused by a handler fault, cleaned up, initialise while "
         "running (must be refused)}; non-trivial = prior history executed >= 1 event or left events pending, the "
         "model has >= 1 statistic and the second replication executed >= 3 events; distinct = canonical (program, "
